@@ -349,6 +349,8 @@ def check_case(case):
 
     for p, src in files.items():
         np_ = norm_name(p)
+        if p == np_ and files0.get(np_) == src:
+            continue        # byte-identical to the canary-only rendering (which is checked once below): nothing of the payload is in this file
         comps = p.split("/")
         if any(c in ("", ".", "..") or "\\" in c or "\n" in c for c in comps):
             fail("path", p, "unsafe path component")
@@ -429,7 +431,7 @@ def build_cases(run, tier, table):
     emitted = set(table["emitted_slots"])
     quick = tier == "quick"
     classes = QUICK if quick else list(PAYLOADS)
-    few = ["triple-quote", "double-quote", "trailing-backslash", "cooked-escape", "symbols"]
+    few = ["triple-quote", "double-quote", "trailing-backslash", "symbols"]
     cases = []
     # quick tier: slots with the same site signature (same rows in the table) go through the same template code; two representatives per
     # signature (chosen by the seed) get every class, the others the four classes that distinguish docstring / literal forms
@@ -442,12 +444,14 @@ def build_cases(run, tier, table):
             groups.setdefault(frozenset(sig.get(label, ())), []).append(label)
     reps = set()
     for g in groups.values():
-        reps.update(rng.sample(sorted(g), min(2, len(g))) if quick else g)
+        reps.update(rng.sample(sorted(g), 1) if quick else g)
     for label in labels:
         if label not in emitted:
             continue
         for (meta, cfg) in cfgs_for(label):
             full = label in reps
+            if quick and cfg and label not in reps:
+                continue          # option variants: representatives only
             if quick and cfg and not (label.split("@")[0] in ("Schema.enum.item", "Schema.const") or label.endswith("@const")):
                 full = False      # option variant matters mostly for enum / const rendering; other slots: the classes that differ per docstring form
             if quick and meta == "pdm":
